@@ -13,6 +13,7 @@
 From Coq Require Import ZArith QArith List Bool Arith Lia Sorted.
 From Dadi Require Import Model.LowPass Proofs.LowPassPart Proofs.LowPassQ Proofs.LowPassProb Proofs.LowPassMat
   Proofs.LowPassCall Proofs.LowPassTens Proofs.LowPassTotal Proofs.LowPassGet Proofs.LowPassDeep Proofs.LowPassF0.
+From Dadi Require Import Model.LowPassCheck Model.LowPassSim Model.LowPassSimCheck Proofs.LowPassSimExp Proofs.LowPassSimDraw Proofs.LowPassSimDeep.
 Import ListNotations.
 Local Open Scope Q_scope.
 
@@ -116,6 +117,103 @@ Theorem C18_deep_coverage_rate_partial : forall cov D, cov_ok cov -> supported_f
   0 <= st_s st <= qpow half D /\ 0 <= st_t st <= qnat D * qpow half D /\ 0 <= st_h st <= 2 * qpow half D.
 Proof. exact deep_coverage_stats_bound. Qed.
 Print Assumptions C18_deep_coverage_is_plain_projection.
+
+(** THE SIMULATED REGIME.  simulate pops draws = simulate_GATK_multisample_calling as a deterministic function of what the
+    random number generators delivered ([draws]: per aggregate partition the depths / heterozygote reads of every individual
+    at every locus, and per subsampled population and locus the positions subsample_genotypes_1D selected).
+    draw_ok = the partition has n_sequenced/2 individuals per population and a choice has at most n_subsampling/2 positions;
+    everything else about the draws is arbitrary.  pdraw_okb = the boolean the replay evaluates on every recorded draw. *)
+(** for EVERY draw: no simulated locus falls outside the bins 0..n_subsampling of any population ... *)
+Theorem C18_simulated_counts_every_locus_once : forall pops draws, Forall (draw_ok pops) draws ->
+  length (sim_counts pops draws) = sim_size pops /\ list_sum (sim_counts pops draws) = total_loci draws.
+Proof. exact sim_counts_total. Qed.
+(** ... so the returned array is a probability vector over the bins (the hypothesis of C18_corrected_total_le_uncorrected) *)
+Theorem C18_simulated_array_is_probability_vector : forall pops draws, Forall (draw_ok pops) draws -> (0 < total_loci draws)%nat ->
+  prob_vector (sim_size pops) (simulate pops draws).
+Proof. exact simulate_prob_vector. Qed.
+Theorem C18_recorded_draw_check_sound : forall pops pd, pdraw_okb pops pd = true -> draw_ok pops pd.
+Proof. exact pdraw_okb_sound. Qed.
+Print Assumptions C18_simulated_array_is_probability_vector.
+
+(** deep coverage (deep_pd: the reads reveal every genotype -- hom-ref >= 1 read, het >= 2 alternative and >= 1 reference reads,
+    hom-alt >= 2 reads; the partitions are sorted genotype vectors): every locus contributes one count at the row [deep_vec]
+    = per population the true allele count, or the allele count of the chosen individuals where the population is subsampled *)
+Theorem C18_simulated_deep_is_subsampling_step : forall pops draws, Forall (deep_pd pops) draws ->
+  sim_counts pops draws = fold_left (bump_vec (sim_dims pops)) (deep_rows pops draws) (repeat 0%nat (sim_size pops)).
+Proof. exact sim_counts_deep. Qed.
+(** without subsampling: the point mass at the true allele counts, for every draw *)
+Theorem C18_simulated_deep_no_subsampling_point_mass : forall pops draws af i0,
+  Forall (deep_pd pops) draws -> (forall p, In p pops -> sp_nsub p = sp_nseq p) ->
+  Forall (fun pd => map (@list_sum) (pd_part pd) = af) draws -> (0 < total_loci draws)%nat ->
+  flat_index (sim_dims pops) af = Some i0 ->
+  forall i, (i < sim_size pops)%nat -> nth i (simulate pops draws) 0 == if (i =? i0)%nat then 1 else 0.
+Proof. exact simulate_deep_point_mass. Qed.
+(** one subsampled population: the returned row is the frequency of the allele counts of the chosen individuals *)
+Theorem C18_simulated_deep_one_population : forall p draws, Forall (deep_pd [p]) draws -> Forall (draw_ok [p]) draws ->
+  sp_nsub p <> sp_nseq p -> (0 < total_loci draws)%nat ->
+  forall j, (j <= sp_nsub p)%nat -> nth j (simulate [p] draws) 0 == freq_of j (deep_pts draws) (deep_sels draws).
+Proof. exact simulate_deep_one_pop. Qed.
+Print Assumptions C18_simulated_deep_no_subsampling_point_mass.
+
+(** the subsampling step IN EXPECTATION.  One locus, averaged over all n_subsampling/2-subsets of its individuals (each subset
+    with the same weight): projection_inbreeding of its genotype vector (equal as terms) ... *)
+Theorem C18_subsampling_expectation_one_locus : forall pt nsub, expected_hist pt nsub = proj_inb pt nsub.
+Proof. exact expected_hist_is_proj_inb. Qed.
+(** ... any number of loci choosing INDEPENDENTLY (mean over all joint choices): the mean of their projection_inbreeding entries ... *)
+Theorem C18_subsampling_expectation_independent_loci : forall j nsub pts, pts <> [] -> (j <= nsub)%nat ->
+  Forall (fun pt => nsub / 2 <= length pt)%nat pts ->
+  mean_freq j nsub pts == qsum (map (fun pt => nth j (proj_inb pt nsub) 0) pts) / qnat (length pts).
+Proof. exact mean_freq_is_mean_of_proj_inb. Qed.
+(** ... weighted with the partition probabilities: the row of projection_matrix -- F <> 0 for all sizes (equal as terms); F = 0,
+    where the code uses the hypergeometric formula, for the sizes of the property (even n_sequenced <= 20) by exhaustive computation.
+    Full statement for F = 0: forall nseq nsub j, Forall2 Qeq (expected_row nseq nsub 0 j) (nth j (proj_matrix nseq nsub 0) []) *)
+Theorem C18_expected_row_is_projection_matrix_row : forall nseq nsub F j, (j <= nseq)%nat -> Qeq_bool F 0 = false ->
+  nth j (proj_matrix nseq nsub F) [] = expected_row nseq nsub F j.
+Proof. exact expected_row_is_projection_matrix_row. Qed.
+Theorem C18_expected_row_is_projection_matrix_row_F0_partial : forall hn hm j, (1 <= hm <= hn)%nat -> (hn <= 10)%nat -> (j <= 2 * hn)%nat ->
+  Forall2 Qeq (expected_row (2 * hn) (2 * hm) 0 j) (nth j (proj_matrix (2 * hn) (2 * hm) 0) []).
+Proof. exact expected_row_is_projection_matrix_row_F0_bounded. Qed.
+(** numpy draws a uniform ORDERING of the positions and keeps the first n_subsampling/2: every subset is the prefix set of the same
+    number k! (n-k)! of the n! orderings, i.e. the kept individuals are a uniform subset.  Full statement: for all n, k <= n.
+    Proved for n <= 6 individuals (n_sequenced <= 12) by exhaustive computation *)
+Theorem C18_permutation_prefix_is_uniform_subset_partial : forall n k, (n <= 6)%nat -> (k <= n)%nat -> perm_prefix_uniform n k = true.
+Proof. exact perm_prefix_uniform_bounded. Qed.
+(** ... and for the model of the simulation itself: at deep coverage, with the partitions of the allele count and numbers of
+    loci proportional to their probabilities, the expectation of entry j of the simulated row is entry j of the projection row *)
+Theorem C18_deep_simulated_row_expectation_is_projection_row : forall nseq nsub F jj draws j,
+  let p := {| sp_nseq := nseq; sp_nsub := nsub |} in
+  Forall (deep_pd [p]) draws -> (0 < total_loci draws)%nat -> (j <= nsub)%nat ->
+  map (fun pd => nth 0%nat (pd_part pd) []) draws = parts nseq jj ->
+  Forall2 (fun pd pr => qnat (length (pd_loci pd)) == qnat (total_loci draws) * pr) draws (part_probs F (parts nseq jj)) ->
+  mean_freq j nsub (deep_pts draws) == nth j (proj_row_inb nseq nsub F jj) 0.
+Proof. exact deep_simulated_row_expectation_is_projection_row. Qed.
+Print Assumptions C18_deep_simulated_row_expectation_is_projection_row.
+
+(** non-vacuity of the simulation model: 6 sequenced / 4 subsampled haplotypes, allele count 2, both partitions with one
+    deep locus each: the draws satisfy deep_pd and draw_ok, the chosen individuals carry 2 resp. 1 derived alleles *)
+Example C18_simulation_nonvacuous :
+  let p := {| sp_nseq := 6; sp_nsub := 4 |} in
+  let draws := [ {| pd_part := [[0; 0; 2]]; pd_loci := [[[(60, 0); (61, 0); (62, 0)]]]; pd_sel := [[[2; 0]]] |};
+                 {| pd_part := [[0; 1; 1]]; pd_loci := [[[(60, 0); (61, 30); (62, 31)]]]; pd_sel := [[[0; 2]]] |} ]%nat in
+  Forall (deep_pd [p]) draws /\ Forall (draw_ok [p]) draws /\ forallb (pdraw_okb [p]) draws = true
+  /\ Forall2 Qeq (simulate [p] draws) [0; 1 # 2; 1 # 2; 0; 0].
+Proof.
+  cbv zeta.
+  assert (D : forall pt d0 d1 d2 sel, StronglySorted le pt -> Forall (fun g => g <= 2)%nat pt -> length pt = 3%nat ->
+              Forall2 revealing pt [d0; d1; d2] ->
+              deep_pd [{| sp_nseq := 6; sp_nsub := 4 |}] {| pd_part := [pt]; pd_loci := [[[d0; d1; d2]]]; pd_sel := [[sel]] |}).
+  { intros pt d0 d1 d2 sel S L Len R. split; [reflexivity|]. split.
+    - intros [|[|i]] q Hq; try discriminate. inversion Hq; subst. unfold pop_deep. cbn. repeat split; auto; lia.
+    - repeat first [apply Forall_cons | apply Forall_nil | apply Forall2_cons | apply Forall2_nil]. exact R. }
+  split; [|split; [|split]].
+  - repeat first [apply Forall_cons | apply Forall_nil]; apply D;
+      repeat first [apply SSorted_cons | apply SSorted_nil | apply Forall_cons | apply Forall_nil | apply Forall2_cons | apply Forall2_nil];
+      cbn; lia.
+  - repeat first [apply Forall_cons | apply Forall_nil]; (split; cbn;
+      repeat first [apply Forall_cons | apply Forall_nil | apply Forall2_cons | apply Forall2_nil]; cbn; lia).
+  - vm_compute. reflexivity.
+  - vm_compute. repeat constructor.
+Qed.
 
 (** non-vacuity: 6 haplotypes, allele count 2 (the case of tests/test_LowPass.py): the two partitions, their
     probabilities 1/5 and 4/5, and a hypothesis-satisfying population *)
